@@ -178,6 +178,51 @@ def gen_unicode():
     d2 = [c for c in range(0x110000) if re.match(r"\d", chr(c))]
     if nd != d2:
         raise Untranslatable("Nd and \\d disagree")
+    # The white space int(str) / float(str) skip is NOT str.isspace: non-ASCII white space is mapped to ' '
+    # (_PyUnicode_TransformDecimalAndSpaceToASCII), ASCII is left alone and the parsers skip C isspace only, so
+    # U+001C..U+001F are isspace and not skipped.  Computed here, never assumed: the skipped set of each
+    # constructor, on both sides of a literal; it must be `isspace` minus a (small) set, which is emitted.
+    ndset = set(nd)
+
+    def skipped(f):
+        out = []
+        for c in range(0x110000):
+            if 0xD800 <= c <= 0xDFFF:
+                continue
+            ch = chr(c)
+
+            def one(s):
+                try:
+                    return f(s) == 1
+                except ValueError:
+                    return False
+            both = one(ch + ch + "1" + ch + ch)
+            lead, trail = one(ch + "1"), one("1" + ch)
+            if both:
+                if not (lead and trail):
+                    raise Untranslatable("%s skips U+%04X on both sides only" % (f.__name__, c))
+                out.append(c)
+            elif (lead or trail) and not (c in ndset or ch in "+."):
+                # '+1', '01', '1.' are literals; anything else accepted on one side only is outside the picture
+                raise Untranslatable("%s skips U+%04X on one side only" % (f.__name__, c))
+        return out
+    isk, fsk = skipped(int), skipped(float)
+    if isk != fsk:
+        raise Untranslatable("int() and float() skip different white space: %r" % sorted(set(isk) ^ set(fsk)))
+    if not set(isk) <= set(sp):
+        raise Untranslatable("int() skips characters that are not isspace: %r" % sorted(set(isk) - set(sp)))
+    excl = sorted(set(sp) - set(isk))
+    if len(excl) > 16:
+        raise Untranslatable("int() white space is not isspace minus a small set (%d exclusions)" % len(excl))
+    for c in excl:      # the excluded characters are rejected wherever they stand
+        for f in (int, float):
+            for s in (chr(c) + "1", "1" + chr(c), " " + chr(c) + "1", "1" + chr(c) + " ", "+" + chr(c) + "1",
+                      "1" + chr(c) + "1", chr(c)):
+                try:
+                    f(s)
+                except ValueError:
+                    continue
+                raise Untranslatable("%s accepts %r" % (f.__name__, s))
     rs = []
     for c in nd:
         if rs and rs[-1][1] == c - 1:
@@ -241,6 +286,9 @@ def gen_unicode():
            "namespace ZCV.Gen", "",
            "/-- code points with `str.isspace()` (= `\\s`), checked over all of Unicode -/",
            "def spaceTbl : List Nat := [%s]" % ", ".join(map(str, sp)), "",
+           "/-- the `isspace` code points that `int(str)` / `float(str)` do NOT skip around a literal (computed: the set",
+           "    both constructors skip, on either side, is `spaceTbl` minus exactly these) -/",
+           "def intSpaceExcluded : List Nat := [%s]" % ", ".join(map(str, excl)), "",
            "/-- `\\d` / category Nd as inclusive ranges; digit value = (c - lo) % 10 -/",
            "def digitRanges : List (Nat × Nat) := [%s]" % ", ".join("(%d, %d)" % (a, b) for a, b in rs), "",
            "/-- one-to-one `str.lower` outside ASCII: (first, count, step, delta) -/",
